@@ -241,7 +241,12 @@ fn underpromotion_mate(rng: &mut Rng) -> Option<Pos> {
         if !pos.is_sane() || pos.legal_moves().is_empty() {
             continue;
         }
-        let under = |m: &super::super::refmodel::Mv| m.promo == N || m.promo == B || m.promo == R;
+        // half of the time any promotion that mates will do (queen promotions included): what
+        // matters then is that several promotions to one square compete in the move ordering
+        let any_promo = rng.chance(1, 2);
+        let under = |m: &super::super::refmodel::Mv| {
+            m.promo == N || m.promo == B || m.promo == R || (any_promo && m.promo == Q)
+        };
         if attacker_to_move {
             if Solver::mating_moves(&pos).iter().any(under) {
                 return Some(pos);
@@ -327,9 +332,9 @@ fn en_passant_only_evasion(rng: &mut Rng) -> Option<Pos> {
 }
 
 fn candidate(rng: &mut Rng) -> Option<Pos> {
-    match rng.below(14) {
+    match rng.below(15) {
         13 => en_passant_only_evasion(rng),
-        12 => underpromotion_mate(rng),
+        12 | 14 => underpromotion_mate(rng),
         10..=11 => cornered_king(rng),
         0..=4 => attacker_ending(rng),
         5..=7 => {
